@@ -234,6 +234,13 @@ def capture (indices : List Int) (line : Bytes) (i : Int) : Bytes :=
     let e := indices.getD (2 * i + 1).toNat 0
     if s < 0 ∨ e < 0 then [] else (line.take e.toNat).drop s.toNat
 
+/-- What every matcher's `FindSubmatchIndex` guarantees about its index slice: each group is
+either absent (negative) or a well-formed range inside the line. -/
+def FitsLine (indices : List Int) (line : Bytes) : Prop :=
+  ∀ k : Nat, 2 * k + 1 < indices.length →
+    (indices.getD (2 * k) 0 < 0 ∨ indices.getD (2 * k + 1) 0 < 0) ∨
+    (indices.getD (2 * k) 0 ≤ indices.getD (2 * k + 1) 0 ∧ indices.getD (2 * k + 1) 0 ≤ line.length)
+
 def expectedNamed (nameTable : List (Bytes × Int)) (indices : List Int) (line : Bytes) : List (Bytes × Bytes) :=
   nameTable.map fun p => (p.1, capture indices line p.2)
 
